@@ -182,20 +182,25 @@ func checkC09(c *Ctx) {
 	// ---- nonce ---------------------------------------------------------------------------------
 	c.checkCounter("C09.nonce", "LatestSignerSetTxNonceKey", live, roots, 0)
 	var creator *ssa.Function
-	for _, f := range sortedFuncs(reach) {
-		if f.Parent() != nil {
+	for _, w := range c.counterWrites("LatestSignerSetTxNonceKey", live) {
+		if w.Val == nil {
 			continue
 		}
-		inc := false
-		ana.Calls(f, func(site ssa.CallInstruction, d ana.CalleeDesc) {
-			for _, callee := range p.Callees(site) {
-				if c.isIncrementOf(callee, "LatestSignerSetTxNonceKey") {
-					inc = true
+		// the function that builds the new set with the incremented nonce: the one computing the increment, or
+		// the callers of a dedicated increment function
+		cands := []*ssa.Function{ana.Outermost(w.Fn)}
+		if c.isIncrementOf(w.Fn, "LatestSignerSetTxNonceKey") {
+			cands = nil
+			for _, e := range p.In[w.Fn] {
+				if reach[e.Caller] {
+					cands = append(cands, ana.Outermost(e.Caller))
 				}
 			}
-		})
-		if inc {
-			creator = f
+		}
+		for _, f := range cands {
+			if reach[f] {
+				creator = f
+			}
 		}
 	}
 	if creator == nil {
@@ -214,10 +219,10 @@ func checkC09(c *Ctx) {
 				return
 			}
 			for _, a := range call.Call.Args {
+				if c.isIncValue(a, creator, "LatestSignerSetTxNonceKey", live) {
+					ok = true
+				}
 				if ac, isCall := a.(*ssa.Call); isCall {
-					if cc := ac.Call.StaticCallee(); cc != nil && c.isIncrementOf(cc, "LatestSignerSetTxNonceKey") {
-						ok = true
-					}
 					if cc := ac.Call.StaticCallee(); cc != nil && builder != nil && cc == builder {
 						okSet = true
 					}
